@@ -359,7 +359,10 @@ def cubes_graph(tier, seed):
         for _ in range(40):
             ts = [rng.choice(['S', 'notS', 'SandS', 'SorS', 'leaf'])
                   for _ in range(rng.choice([4, 5, 6]))]
-            if sum(NSLOTS[t] for t in ts) <= 5:    # 8 targets per slot
+            # (n+2) targets per slot: 6 names x 5 slots ran past the cube
+            # budget on a loaded machine; 4 slots for 6 names, 5 up to 5
+            slots = sum(NSLOTS[t] for t in ts)
+            if slots <= (4 if len(ts) >= 6 else 5):
                 out.append({'templates': ts})
     return out
 
